@@ -174,6 +174,9 @@ type Outcome struct {
 	Items  []*Outcome `json:"items,omitempty"`
 	Type   string     `json:"type,omitempty"`
 	Fields []Entry    `json:"fields,omitempty"`
+	// Async: this field outcome is delivered through a ResolvePromise when the request runs with a
+	// Scheduler (see async.go); ignored by the Lean drivers and by synchronous runs.
+	Async bool `json:"async,omitempty"`
 }
 
 func Leaf(g GoVal) *Outcome    { return &Outcome{Kind: "leaf", Val: &g} }
